@@ -45,6 +45,10 @@ def layerCmd (f : List String) : Option String :=
     let pos ← parseList "," parseRat pos
     let xs ← parseList "," parseRat xs
     let exact := mode == "exact"
+    -- float mode: the absolute tolerance grows with the magnitude of the positions (an engine fed raw epoch milliseconds works at 1e12,
+    -- where one ulp is 2.4e-4): 2^-44 relative, i.e. 0.1 at 1.7e12 — exact mode compares for equality
+    let mag : Rat := (items.map (fun i => ratAbs i.target + ratAbs i.width)).foldl (fun a b => if a < b then b else a) 0
+    let tau : Rat := if exact then tau else tau + mag / 17592186044416
     let m := removeOverlap o items
     let its := order.map (fun i => items.getD i { target := 0, width := 0, stub := false })
     let orderOK := order == m.order
